@@ -7,28 +7,6 @@ Import ListNotations.
 Open Scope list_scope.
 Open Scope Z_scope.
 
-(* a loop that appends g x for every element is concat_opt, whatever the loop body looks like as long as it
-   computes "state ++ g x, or raise" *)
-Lemma py_for_acc {A} (g : A -> res bytes) (f : A -> option bytes) :
-  (forall x, g x = of_option (f x)) ->
-  forall (body : A -> bytes -> res bytes),
-  (forall x st, body x st = match g x with Ok b => Ok (st ++ b) | _ => Raise end) ->
-  forall l acc, py_for l acc body = match concat_opt f l with Some b => Ok (acc ++ b) | None => Raise end.
-Proof.
-  intros Hg body Hb l. induction l as [|x r IH]; intros acc; cbn [py_for concat_opt].
-  - rewrite app_nil_r. reflexivity.
-  - rewrite Hb, Hg. destruct (f x) as [a|]; cbn [of_option]; [|reflexivity].
-    rewrite IH. destruct (concat_opt f r) as [b|]; [|reflexivity]. rewrite <- app_assoc. reflexivity.
-Qed.
-
-Ltac body_ok :=
-  intros; cbv beta iota zeta;
-  repeat match goal with
-         | |- context [match ?r with Ok _ => _ | RetNone => _ | Raise => _ end] =>
-             lazymatch r with context [match _ with _ => _ end] => fail | _ => destruct r end
-         end;
-  rewrite <- ?app_assoc; reflexivity.
-
 Lemma src_witness_to_bytes_eq : forall st, src_witness_to_bytes st = of_option (witness_to_bytes st).
 Proof.
   intros st. unfold src_witness_to_bytes, witness_to_bytes. cbv zeta.
